@@ -659,6 +659,16 @@ theorem C20_front_ident :
 /-- without a fault the identity is (pid, creation time) and the creation time is cached -/
 theorem C20_front_ident_ok (ign : Bool) (ct : Nat) : frontInit ign ct .value = .built (some ct) (some ct) false := rfl
 
+/-- obligation on the translator's fact: the identity query is the fast-only one -/
+theorem cfg_ident_fast_only : cfg.winIdentFastOnly = true := by decide
+
+/-- a front end that asked for the plain `create_time()` would hide the permission failure behind the
+    slower fall-back: the identity of an access-denied process would then carry a creation time -/
+theorem C20_front_ident_counterexample :
+    frontInit false 1 (identFault { cfg with winIdentFastOnly := false } .windows ⟨"create_time", ["wrap_exceptions"]⟩
+      "proc_times" ⟨.EACCES, some 5⟩ ⟨42, .alive, true⟩) = .built (some 1) (some 1) false ∧
+    Spec.initExpected .windows ⟨.EACCES, some 5⟩ ⟨42, .alive, true⟩ false = .built none none false := by decide
+
 /-- **C20_front_ident_fast_only.** The `WINDOWS` branch of `_get_ident` takes effect: a permission
     failure of `proc_times` is AccessDenied for the identity query (`fast_only=True`), whereas the
     public `create_time()` answers it from the system-wide process list. For every error the
@@ -668,7 +678,7 @@ theorem C20_front_ident_fast_only (e : Err) (env : Env) (h : isPermissionErr cfg
     (methodFault cfg .windows ⟨"create_time", ["wrap_exceptions"]⟩ "proc_times" e env false).1 = .value := by
   have hw := winCfg_generated
   constructor
-  · simp [identFault, innerIdent, bodyWith, finish, Method.retries, escape, Method.wrapped, wrapExceptions,
+  · simp [identFault, innerIdent, cfg_ident_fast_only, bodyWith, finish, Method.retries, escape, Method.wrapped, wrapExceptions,
       runClauses_eq_dispatch, dispatch_cfg, actionTable, runAction, convertOserror, Platform.family]
     rw [hw] at h ⊢
     simp [convertOserrorGo, h]
